@@ -20,6 +20,7 @@ func init() {
 	register(&core.Rule{ID: "R-LQ-RECOVER", Props: []string{"C04"}, Doc: "lq.Init runs, on every path to a nil error, a statement UPDATE urls SET status='FRESH' … WHERE status='CLAIMED' (no id restriction); lq.Start starts the consumer only after Init succeeded", Run: ruleLQRecover})
 	register(&core.Rule{ID: "R-LQ-CLAIM-TX", Props: []string{"C04"}, Doc: "(*LQClient).Get: GetFreshURLs and every ClaimThisURL run on WithTx(tx) of one Begin(); Rollback is deferred; Commit precedes every return of rows; the rows returned are the rows selected and every one of them was claimed", Run: ruleLQClaimTx})
 	register(&core.Rule{ID: "R-LQ-STOP-RESET", Props: []string{"C04"}, Doc: "lq.Stop: after cancel and wg.Wait every id of reactor.GetStateTable() is passed to ResetURL (loop without early exit)", Run: ruleLQStopReset})
+	register(&core.Rule{ID: "R-SEEN-BEFORE-CAPTURE", Props: []string{"C04"}, Doc: "a seed handed out by the local queue is not recorded in the persistent seen-store before it is captured: otherwise a kill between preprocessing and the WARC write makes the restart skip the re-offered seed as already seen (finished and deleted without a capture). Decided as: every seen-store write of the local SeencheckItem — which preprocess calls before the fetch — excludes the top-level seed (IsSeed()==false on the element)", Run: ruleSeenBeforeCapture})
 	register(&core.Rule{ID: "R-LQ-DELETE-SOURCE", Props: []string{"C04"}, Doc: "DeleteURL is called only from (*LQClient).Delete, which is called only from finisherSender with the batch built by finisherReceiver from items received on the finish channel", Run: ruleLQDeleteSource})
 }
 
@@ -378,5 +379,65 @@ func ruleLQDeleteSource(r *core.Reporter) {
 		r.Held("lq.Delete", 1, "deletes the id of every row of its argument and commits")
 	} else {
 		r.Violated("lq.Delete", fnPos(p, del), "Delete does not remove exactly the ids it was given")
+	}
+}
+
+func ruleSeenBeforeCapture(r *core.Reporter) {
+	p := r.P
+	sc := p.Func(rel(pkgSeen), "SeencheckItem")
+	pre := p.Func(rel(pkgPre), "preprocess")
+	if sc == nil || pre == nil {
+		r.Undecided("seencheck.SeencheckItem", "", "anchors not found")
+		return
+	}
+	r.Analysed(sc, pre)
+	calledBeforeFetch := false
+	allInstrs(pre, func(in ssa.Instruction) {
+		if c, ok := in.(*ssa.Call); ok && ir.CalleeOf(c.Common()) == sc {
+			calledBeforeFetch = true
+		}
+	})
+	if !calledBeforeFetch {
+		r.Held("seencheck.SeencheckItem/seed-recorded-before-capture", 1, "the local seencheck is not run in the preprocessor")
+		return
+	}
+	isElem := func(v ssa.Value) bool { _, _, e := elemLoad(ir.Strip(v)); return e }
+	var writes []ssa.Instruction
+	allInstrs(sc, func(in ssa.Instruction) {
+		c, ok := in.(*ssa.Call)
+		if !ok {
+			return
+		}
+		if ir.IsCallTo(c, pkgSeen+".seen") {
+			writes = append(writes, in)
+			return
+		}
+		// the store's Set called directly
+		if f := ir.CalleeOf(c.Common()); f != nil && f.Name() == "Set" && strings.Contains(ir.Path(ir.Recv(c.Common())), ".DB") {
+			writes = append(writes, in)
+		}
+	})
+	if len(writes) == 0 {
+		r.Undecided("seencheck.SeencheckItem/seed-recorded-before-capture", fnPos(p, sc), "no write to the seen-store found in the local SeencheckItem")
+		return
+	}
+	unguarded := 0
+	var first ssa.Instruction
+	for _, w := range writes {
+		_, g := ir.GuardedBy(sc, ir.Entry(sc), w, false, func(a ir.Atom) bool {
+			c := ir.BoolCallAtom(a, "(*"+pkgModels+".Item).IsSeed")
+			return c != nil && isElem(ir.Recv(c.Common()))
+		})
+		if !g {
+			unguarded++
+			if first == nil {
+				first = w
+			}
+		}
+	}
+	if unguarded == 0 {
+		r.Held("seencheck.SeencheckItem/seed-recorded-before-capture", len(writes), "top-level seeds are never recorded before their capture")
+	} else {
+		r.Violated("seencheck.SeencheckItem/seed-recorded-before-capture", p.InstrPos(first), "the local seencheck records the top-level seed as seen while it is only preprocessed (%d write(s) reachable for the seed itself): after a kill before its WARC write, the restart re-offers the seed, finds it `seen`, completes it and deletes it from the queue without any capture", unguarded)
 	}
 }
